@@ -40,6 +40,9 @@ CLAIMED = {
  "C17": dict(cat="model_checking", design="§4 C17", technique="TLA+ spec Handshake.tla with an active attacker (drop/reorder/replay/redirect, signing oracle of honest nodes); TLC exhaustive to a depth bound + -simulate GEN + named attack schedules replayed on real Network/Peer with real signatures; HandshakeTrace.tla",
    text="The acceptance precondition (valid signature by K over the challenge stored for this very connection, compatible version, key of a connection never changes) and the no-disturbance predicates are TLA+ operators. TLC explores every attacker schedule up to the bound on the model; schedules are replayed against the real Network/Peer objects with real keys, real challenges read from the node's outbound messages and signatures the attacker can actually obtain; the monitor flags any connection that becomes authenticated without the precondition, an unconsumed challenge, a rejected response that disturbs another connection or the key map, and any handler panic.",
    note="relay of a genuine signature over this connection's challenge is within the property as stated (DESIGN 3.9a); rate limiting is not exercised (clock advances 1 s per message)"),
+ "C18": dict(cat="model_checking", design="§4 C18", technique="TLA+ spec LiteBlock.tla (merkle tree, aligned-subtree placeholders, projection, root recomputation) checked exhaustively by TLC for n<=9/11; every (n, key pattern) replayed on real generate_lite_block + wire round trip + real merkle recomputation; LiteBlockTrace.tla",
+   text="TLC proves on the model, for every transaction count up to the bound and every key pattern, that the reference projection tiles the block with kept transactions and aligned complete subtrees and that the root recomputed from the lite items equals the full root (and that a misaligned placeholder is rejected). The same cases are executed on the real code: real signed blocks, generate_lite_block, serialisation, deserialisation, generate() and the real merkle recomputation; the monitor checks tiling/alignment, leaf hashes after the wire trip, presence of every touching transaction, identity of id/hash/signature/header and recomputability of the commitment.",
+   note="exhaustive for n<=9 (quick) / n<=11 (thorough) incl. variants; random patterns up to 64 transactions; merging strategy left free"),
 }
 
 def main():
